@@ -175,8 +175,17 @@ static std::vector<Scn> scenarios(bool th, bool small_only)
     }
     return v;
 }
+static std::vector<int> g_lit_teams;
 static std::vector<int> team_args(const Scn &s, bool th)
 {
+    if (!g_lit_teams.empty() && !(s.kind == K_PARCPY || s.kind == K_PARZERO))
+    {
+        std::vector<int> v = th ? std::vector<int>{1, 2, 3, 4, 5, 6, 7, 8, 9, 10, 11, 12, 13, 16, 17, 31, 33} : std::vector<int>{1, 2, 3, 4, 5, 6, 7, 8, 11, 13};
+        for (int t : g_lit_teams) v.push_back(t);
+        std::sort(v.begin(), v.end());
+        v.erase(std::unique(v.begin(), v.end()), v.end());
+        return v;
+    }
     if (s.kind == K_PARCPY || s.kind == K_PARZERO) return {-1, 0, 1, 2, 3, 64, 101};
     if (th) return {1, 2, 3, 4, 5, 6, 7, 8, 9, 10, 11, 12, 13, 16, 17, 31, 33};
     return {1, 2, 3, 4, 5, 6, 7, 8, 11, 13};
@@ -594,6 +603,7 @@ int main(int argc, char **argv)
     ts::set_team_cap(128);
     if (!args.one.empty()) return run_one(args);
     const bool th = args.thorough();
+    for (u64 L : culist(args.kv, "lits")) for (long long d : {-1LL, 0LL, 1LL}) { long long t = (long long)L + d; if (t > 13 && t <= 130) g_lit_teams.push_back((int)t); } // team sizes next to small constants of the source
     std::string part = args.part.empty() ? "serial" : args.part;
     auto S = scenarios(th, part == "coop");
     long only = args.num("only", -1);
